@@ -279,3 +279,37 @@ func runOneChild(args []string, logPath, outPath string, watchdog time.Duration,
 	_ = err
 	return false, false, sum, relayed
 }
+
+// isAbsentChild reports whether this process is the "checksum services unregistered" re-run of a check.
+func isAbsentChild(e *Env) bool {
+	if len(e.Args) > 0 && e.Args[0] == "registry-absent-child" {
+		servicesAbsent = true
+		return true
+	}
+	return false
+}
+
+// runAbsentChild re-runs the current check in a child process that first empties the checksum registry
+// (codec.Clear is public API and the generated frame codecs explicitly tolerate an absent service):
+// what a property says about lengths, consumption or panics must not depend on that registry state.
+func runAbsentChild(e *Env) {
+	r := e.R
+	if e.Only != "" || os.Getenv("VERIF_CHILD") != "" {
+		return
+	}
+	dir := filepath.Join(monRoot(), ".work", r.Prop+"-absent")
+	os.MkdirAll(dir, 0o755)
+	died, timedOut, sum, relayed := runOneChild([]string{r.Prop, "--tier", "quick", "--seed", fmt.Sprint(e.Seed), "registry-absent-child"}, filepath.Join(dir, "child.log"), filepath.Join(dir, "child.out"), 10*time.Minute, nil)
+	r.Relay(relayed)
+	r.AddViolations(sum.Violations)
+	r.Evals(sum.Evaluations)
+	r.Set("rerun_with_checksum_services_unregistered", map[string]any{"evaluations": sum.Evaluations, "violations": sum.Violations})
+	if died || timedOut {
+		out := tailFile(filepath.Join(dir, "child.out"), 1200)
+		if strings.Contains(out, "panic:") || strings.Contains(out, "fatal error") {
+			r.Violate(r.Prop+"/died-with-checksum-services-unregistered", r.Prop+"/died-with-checksum-services-unregistered", map[string]any{"output": out})
+		} else {
+			r.Inconclusive("re-run with unregistered checksum services did not complete: " + out)
+		}
+	}
+}
